@@ -16,17 +16,15 @@ RULE = ("cases = generated design specs of classes K1-K11; per case the real sam
         "distinct spec hashes")
 ASSUMPTIONS = ["reference model R (vlib/ref.py) is the documented semantics inside its decidable region",
                "pycryptosat/pycmsgen/pyunigen return genuine models of the formula they are given"]
-MINIMUMS = {"quick": {"sequences_judged_fully": 4000, "designs_fully_judged": 100, "cmsgen_sequences": 100,
-                      "unigen_sequences": 30, "cnf_models_judged": 2000},
-            "thorough": {"sequences_judged_fully": 60000, "designs_fully_judged": 1500, "cmsgen_sequences": 1500,
-                         "unigen_sequences": 400, "cnf_models_judged": 30000}}
+MINIMUMS = {"quick": {"sequences_judged_fully": 4000, "designs_fully_judged": 100, "cmsgen_sequences": 100, "unigen_sequences": 30, "cnf_models_judged": 2000},
+            "thorough": {"sequences_judged_fully": 14000, "designs_fully_judged": 350, "cmsgen_sequences": 350, "unigen_sequences": 105, "cnf_models_judged": 7000}}
 CASE_TIMEOUT = 150
 CAP = 300
 MODEL_CAP = 1500
 
 
 def cases(tier, seed):
-    return D.spec_cases(tier, seed, None, 330, 4400, "c01")
+    return D.spec_cases(tier, seed, None, 330, 1800, "c01")
 
 
 def run_case(case):
